@@ -9,7 +9,7 @@ var ccrTriage = map[string]string{
 	"verifier.(*rawMomentumVerifier).timestamp|clock:time.Now":                                                                            "the 'not in the future' rule the property itself states; only widens rejection by local clock, never acceptance of different content",
 	"chain.(*accountPool).GetAllUncommittedAccountBlocks|map-range:recv.managers":                                                         "[exit=0 append=1 sorted=0] class (c): consumers (newGenesisMomentum, pillar.generateMomentum) pass the slice to NewMomentumContent, which sorts before it enters a hash; filterBlocksToCommit depends only on order within one address's run, which the body preserves",
 	"chain/genesis.genesisPlasmaContractConfig|map-range:make(map[types.Address]*big.Int)":                                                "[exit=0 append=0 sorted=0] class (a): one storage write per beneficiary key",
-	"chain/genesis.wrap|map-range:a0.GenesisBlocks.Blocks[(iter+1)].BalanceList":                                                          "[exit=0 append=0 sorted=0] class (a): SetBalance per token key",
+	"chain/genesis.wrap|map-range:a0.GenesisBlocks.Blocks[iter].BalanceList":                                                          "[exit=0 append=0 sorted=0] class (a): SetBalance per token key",
 	"chain/momentum.(*momentumStore).ComputePillarDelegations|map-range:next(range(recv.computeBackers(recv.getAllDelegations()#0)#0))#2": "[exit=0 append=0 sorted=0] class (b): sums backer weights into the pillar weight",
 	"chain/momentum.(*momentumStore).ComputePillarDelegations|map-range:recv.computeBackers(recv.getAllDelegations()#0)#0":                "[exit=0 append=0 sorted=1] class (a): fills per-pillar details by name; the result list is built from the ordered pillar list, not from this loop",
 	"common/types.(*PillarDelegationDetail).Merge|map-range:a0.Backers":                                                                   "[exit=0 append=0 sorted=0] class (a)/(b): per-address accumulation",
